@@ -101,8 +101,8 @@ mod harnesses {
     clamp_harness!(c06_clamp_ce_single, Objective::CrossEntropy, false);
     // @harness c06_clamp_mae_single props=C06 tier=thorough kind=complete flags="--no-overflow-checks" what="MAE gradient with clamp, flat" timeout=600
     clamp_harness!(c06_clamp_mae_single, Objective::MAE, false);
-    // @harness c06_clamp_rmse_triple props=C06 tier=thorough kind=complete flags="--no-overflow-checks" what="RMSE gradient with clamp, 3-D" timeout=2400 mem=16
-    clamp_harness!(c06_clamp_rmse_triple, Objective::RMSE, true);
+    // @harness c06_clamp_rmse_single props=C06 tier=thorough kind=complete flags="--no-overflow-checks" what="RMSE gradient with clamp, flat" timeout=900
+    clamp_harness!(c06_clamp_rmse_single, Objective::RMSE, false);
 
     // ---- fold structure -----------------------------------------------------------------------------------
     fn ln_standin(x: f32) -> f32 { x - 1.0 }
